@@ -300,3 +300,159 @@ pub fn random_program(rng: &mut Rng, max_len: usize, p: &EncParams) -> Vec<Ins> 
     resolve_branches(&mut prog, p);
     prog
 }
+
+/// A program generated with stack-depth bookkeeping so that most of it executes:
+/// operands are pushed before they are consumed; typed operations get typed operands.
+pub fn valid_program(rng: &mut Rng, max_len: usize, p: &EncParams, allow_loops: bool) -> Vec<Ins> {
+    let n = 1 + rng.usize(max_len.max(1));
+    let mut prog: Vec<Ins> = Vec::new();
+    let mut depth: i32 = 0;
+    let val = |rng: &mut Rng| if rng.chance(1, 3) { rng.interesting() } else { rng.below(40) };
+    while prog.len() < n {
+        let need_push = depth == 0 || (depth == 1 && rng.chance(1, 3));
+        let choice = if need_push { 0 } else { rng.below(20) };
+        match choice {
+            0..=4 => {
+                // push something
+                let i = match rng.below(14) {
+                    0..=3 => Ins::op(0x30 + rng.below(32) as u8),
+                    4 => Ins::u(0x10, val(rng)),
+                    5 => Ins::s(0x11, val(rng) as i64),
+                    6 => Ins::u(*rng.pick(&[0x08u8, 0x0a, 0x0c, 0x0e]), val(rng)),
+                    7 => Ins::s(*rng.pick(&[0x09u8, 0x0b, 0x0d, 0x0f]), val(rng) as i64),
+                    8 => Ins::s(0x70 + rng.below(32) as u8, rng.below(64) as i64 - 32),
+                    9 => Ins::s(0x91, rng.below(64) as i64 - 32),
+                    10 => Ins::op(*rng.pick(&[0x9cu8, 0x9c, 0x97])),
+                    11 => Ins::u(*rng.pick(&[0x03u8, 0xa1, 0xa2]), rng.below(0x1000)),
+                    12 => {
+                        let mut i = Ins::u(0xa5, rng.below(32));
+                        i.s = rng.below(21) as i64;
+                        i
+                    }
+                    _ => {
+                        let ty = 1 + rng.below(20);
+                        let mut i = Ins::u(0xa4, ty);
+                        let sz = [1usize, 1, 2, 2, 4, 4, 8, 8, 4, 8][(ty % 10) as usize];
+                        // world.base_type(ty) = VALUE_TYPES[1 + ty % 10]: I8,U8,I16,U16,I32,U32,I64,U64,F32,F64
+                        let _ = sz;
+                        let szs = [1usize, 1, 2, 2, 4, 4, 8, 8, 4, 8];
+                        i.bytes = rng.bytes(szs[(ty % 10) as usize]);
+                        i
+                    }
+                };
+                prog.push(i);
+                depth += 1;
+            }
+            5..=9 if depth >= 2 => {
+                prog.push(Ins::op(*rng.pick(&[
+                    0x1au8, 0x1b, 0x1c, 0x1d, 0x1e, 0x21, 0x22, 0x24, 0x25, 0x26, 0x27, 0x29, 0x2a, 0x2b, 0x2c, 0x2d, 0x2e,
+                ])));
+                depth -= 1;
+            }
+            10..=11 => {
+                prog.push(match rng.below(6) {
+                    0 => Ins::op(0x19),
+                    1 => Ins::op(0x1f),
+                    2 => Ins::op(0x20),
+                    3 => Ins::u(0x23, val(rng)),
+                    4 => Ins::op(0x06),
+                    _ => Ins::u(0x94, *rng.pick(&[1u64, 2, 4, 8])),
+                });
+            }
+            12 => {
+                match rng.below(5) {
+                    0 => {
+                        prog.push(Ins::op(0x12));
+                        depth += 1;
+                    }
+                    1 if depth >= 2 => {
+                        prog.push(Ins::op(0x14));
+                        depth += 1;
+                    }
+                    2 if depth >= 2 => prog.push(Ins::op(0x16)),
+                    3 if depth >= 3 => prog.push(Ins::op(0x17)),
+                    4 => {
+                        prog.push(Ins::u(0x15, rng.below(depth as u64)));
+                        depth += 1;
+                    }
+                    _ => {
+                        prog.push(Ins::op(0x13));
+                        depth -= 1;
+                    }
+                }
+            }
+            13 => {
+                // control flow
+                let mut i = Ins::op(if rng.bool() { 0x28 } else { 0x2f });
+                let here = prog.len();
+                let target = if allow_loops && rng.chance(1, 3) { rng.usize(here + 1) } else { here + 1 + rng.usize(3) };
+                i.u = target.min(n) as u64;
+                i.bytes = vec![1];
+                if i.opc == 0x28 {
+                    depth -= 1;
+                }
+                prog.push(i);
+            }
+            14 => {
+                // convert / reinterpret to a random base type
+                prog.push(Ins::u(*rng.pick(&[0xa8u8, 0xa9]), rng.below(21)));
+            }
+            15 => {
+                prog.push(Ins::u(*rng.pick(&[0x98u8, 0x99]), rng.below(8)));
+            }
+            16 => {
+                let mut i = Ins::op(0xa3);
+                i.bytes = vec![0x50 + rng.below(32) as u8];
+                prog.push(i);
+                depth += 1;
+            }
+            17 if depth >= 1 => {
+                // composite location piece
+                match rng.below(4) {
+                    0 => {
+                        prog.push(Ins::op(0x9f));
+                        prog.push(Ins::u(0x93, rng.below(16)));
+                        depth -= 1;
+                    }
+                    1 => {
+                        prog.push(Ins::op(0x50 + rng.below(32) as u8));
+                        prog.push(Ins::u(0x93, rng.below(16)));
+                    }
+                    2 => {
+                        prog.push(Ins::u(0x93, rng.below(16)));
+                        depth -= 1;
+                    }
+                    _ => {
+                        let mut i = Ins::u(0x9d, rng.below(64));
+                        i.s = rng.below(8) as i64;
+                        prog.push(Ins::op(0x9f));
+                        prog.push(i);
+                        depth -= 1;
+                    }
+                }
+            }
+            18 if depth >= 1 => {
+                prog.push(Ins::op(0x9b));
+            }
+            _ => {
+                prog.push(Ins::op(0x96));
+            }
+        }
+        if depth < 0 {
+            depth = 0;
+        }
+    }
+    // terminal forms
+    match rng.below(8) {
+        0 => prog.push(Ins::op(0x9f)),
+        1 => {
+            let mut i = Ins::op(0x9e);
+            i.bytes = rng.bytes(4);
+            prog.push(i);
+        }
+        2 => prog.push(Ins::op(0x50 + rng.below(32) as u8)),
+        _ => {}
+    }
+    resolve_branches(&mut prog, p);
+    prog
+}
